@@ -231,9 +231,18 @@ pub fn parse_proj(definition: &str) -> Result<String, Error> {
         return Ok(definition.to_string());
     }
     // Impose some line ending sanity and remove the PROJ '+' prefix
-    let all = definition
+    // Comments go first: otherwise a '+' opening the line after a comment
+    // would pull that line into the comment
+    let uncommented = definition
         .replace("\r\n", "\n")
         .replace('\r', "\n")
+        .lines()
+        .map(|line| line.split('#').next().unwrap_or(""))
+        .collect::<Vec<_>>()
+        .join("\n");
+
+    let all = uncommented
+        .replace('\t', " ")
         .replace(" +", " ")
         .replace("\n+", " ")
         .trim()
